@@ -65,7 +65,8 @@ def default_cfg(**kw) -> dict:
 def _symbolic_inputs(cfg: dict):
     """Create the symbolic inputs of a configuration (names are deterministic, so
     re-execution yields identical terms)."""
-    N, B, L = cfg['N'], cfg['B'], cfg['L']
+    N, L = cfg['N'], cfg['L']
+    B = cfg['B'] * (2 if cfg.get('repeat') else 1)   # a second solve of the same period continues the script
     names = check_names(N) + (['Z'] if cfg['with_z'] else []) + ['X']
     cells = {n: [SFloat(f'{n}_{j}') for j in range(L)] for n in names}
     s = Script(N, B, with_z=cfg['with_z'])
@@ -87,9 +88,9 @@ def _symbolic_inputs(cfg: dict):
 
 
 def _assume_domain(ctx: Ctx, cfg: dict, names, cells, s: Script, tol, min_iter, offset) -> None:
-    N, B, L = cfg['N'], cfg['B'], cfg['L']
+    N, B, L = cfg['N'], s.B, cfg['L']
     if isinstance(min_iter, SInt):
-        ctx.assume(z3.And(min_iter.t >= 0, min_iter.t <= B + 1), f'0 <= min_iter <= max_iter+1 = {B + 1}')
+        ctx.assume(z3.And(min_iter.t >= 0, min_iter.t <= cfg['B'] + 1), f"0 <= min_iter <= max_iter+1 = {cfg['B'] + 1}")
     if isinstance(offset, SInt):
         ctx.assume(z3.And(offset.t >= -L - 1, offset.t <= L + 1), f'-L-1 <= offset <= L+1 (L={L})')
     for p in range(1, B + 1):
@@ -151,10 +152,12 @@ def _call_impl(m, cfg: dict, *, min_iter, tol, offset) -> dict:
     try:
         with warnings.catch_warnings():
             warnings.simplefilter('ignore')
-            if cfg['entry'] == 'solve_period':
-                r = m.solve_period(_span(cfg)[cfg['t']], **kw)
-            else:
-                r = m.solve_t(cfg['t'], **kw)
+            for _call in range(2 if cfg.get('repeat') else 1):
+                m._script_state()['log'].append(('call', None))
+                if cfg['entry'] == 'solve_period':
+                    r = m.solve_period(_span(cfg)[cfg['t']], **kw)
+                else:
+                    r = m.solve_t(cfg['t'], **kw)
         out.update(kind='ret', ret=r, exc=None, cause=None)
     except Exception as e:  # noqa: BLE001 - PathAbort/Inconclusive are BaseException
         out.update(kind='exc', ret=None, exc=type(e).__name__,
@@ -168,7 +171,7 @@ def _call_impl(m, cfg: dict, *, min_iter, tol, offset) -> dict:
     out['eval_iters'] = [i for k, i in st['log'] if k == 'eval']
     out['pre_calls'] = [i for k, i in st['log'] if k == 'before']
     out['post_calls'] = [i for k, i in st['log'] if k == 'after']
-    out['log_order'] = [k for k, _ in st['log'] if not k.endswith('_done')]
+    out['log_order'] = [k for k, _ in st['log'] if not k.endswith('_done') and k != 'call']
     out['events'] = list(st['log'])
     out['status_all'] = [str(x) for x in m.status]
     out['iters_all'] = [int(x) for x in m.iterations]
@@ -378,8 +381,8 @@ def _ieee_witness(ctx: Ctx, path, cfg: dict, extra: list, soft: bool = False) ->
     m = s.model()
     names, cells, sc, tol, min_iter, offset = _input_terms(cfg)
     inp: Dict[str, Any] = {'cells': {n: [model_float(m, c.t) for c in cells[n]] for n in names}}
-    inp['v'] = [[model_float(m, x.t) if isinstance(x, SFloat) else float(x) for x in sc.v[p]] for p in range(cfg['B'] + 1)]
-    inp['z'] = [model_float(m, sc.z[p].t) if isinstance(sc.z[p], SFloat) else 0.0 for p in range(cfg['B'] + 1)]
+    inp['v'] = [[model_float(m, x.t) if isinstance(x, SFloat) else float(x) for x in sc.v[p]] for p in range(sc.B + 1)]
+    inp['z'] = [model_float(m, sc.z[p].t) if isinstance(sc.z[p], SFloat) else 0.0 for p in range(sc.B + 1)]
     inp['kind'] = [model_int(m, k.t) if isinstance(k, SInt) else int(k) for k in sc.kind]
     inp['fs'] = [model_int(m, k.t) if isinstance(k, SInt) else int(k) for k in sc.fs]
     inp['kb'] = model_int(m, sc.kb.t) if isinstance(sc.kb, SInt) else int(sc.kb)
@@ -392,7 +395,7 @@ def _ieee_witness(ctx: Ctx, path, cfg: dict, extra: list, soft: bool = False) ->
 
 
 def _concrete_script(cfg: dict, inp: dict) -> Script:
-    s = Script(cfg['N'], cfg['B'], with_z=cfg['with_z'])
+    s = Script(cfg['N'], cfg['B'] * (2 if cfg.get('repeat') else 1), with_z=cfg['with_z'])
     s.v = [list(map(np.float64, row)) for row in inp['v']]
     s.z = [np.float64(x) for x in inp['z']]
     s.kind = list(inp['kind'])
